@@ -70,6 +70,18 @@ class SArr:
             r = sym.mul(r, s)
         return r
 
+    def frozen(self):
+        """the content AS IT IS NOW, as an array of its own: a derived array (a + 1, a.astype(..), where(..), a value being
+        stored) must not see later writes to the buffer it was computed from.  Buffer versions are persistent closures, so a
+        snapshot is just the current version."""
+        snap, imap = self.buf.get, self.imap
+        r = SArr(self.shape, (lambda snap, imap: (lambda q: snap(imap(tuple(q)))))(snap, imap), self.kind, attrs=dict(self.attrs), tag=self.tag)
+        if self.mask is not None:
+            r.mask = self.mask.frozen()
+        if hasattr(self, 'cls'):
+            r.cls = self.cls
+        return r
+
     def fresh_like(self, get, kind=None, shape=None, tag=None):
         return SArr(self.shape if shape is None else shape, get, kind or self.kind, tag=tag or self.tag)
 
@@ -311,11 +323,14 @@ def getitem(I, a, idx):
         # boolean mask selection: fresh array of unknown length (only used for messages)
         return Opaque('bool-mask selection')
     if isinstance(idx, SArr) and idx.kind == 'i' and a.ndim == 1 and idx.ndim == 1:
-        src = a
+        src, idx = a.frozen(), idx.frozen()
         return SArr(idx.shape, lambda q: src.get(idx.get(q[0])), a.kind, tag='take')
     if isinstance(idx, SArr) and idx.kind == 'i' and idx.ndim == 1:
         idx = (idx,)
+    if isinstance(idx, list) and idx and all(sym.is_intkind(x) for x in idx):
+        idx = (from_list(I, idx, 'i'),)
     if isinstance(idx, tuple):
+        idx = tuple(from_list(I, x, 'i') if isinstance(x, list) and x and all(sym.is_intkind(v) for v in x) else x for x in idx)
         items = norm_index(a, idx)
         arrs = [k for k, x in enumerate(items) if isinstance(x, SArr)]
         if len(arrs) == 1 and items[arrs[0]].kind == 'i' and items[arrs[0]].ndim == 1 and all(
@@ -324,7 +339,7 @@ def getitem(I, a, idx):
             I.ctx.trust('numpy indexing with one 1-D integer array among slices: the axis stays in place, negative entries count from the end, '
                         'IndexError if an entry is out of range')
             ax = arrs[0]
-            ia = items[ax]
+            ia = items[ax].frozen()
             n = a.shape[ax]
             oob = SArr(ia.shape, lambda q: sym.Or(sym.lt(ia.get(q), sym.neg(n)), sym.ge(ia.get(q), n)), 'b', tag='oob')
             if I.ctx.branch(reduce_bool(I, oob, 'any')):
@@ -358,7 +373,7 @@ def setitem(I, a, idx, val):
                 # as it stands before this store
                 og, vm = val.buf.get, val.imap
                 val = SArr(val.shape, (lambda og, vm: (lambda q: og(vm(tuple(q)))))(og, vm), val.kind, tag='frozen')
-            vv = broadcast_to(val, v.shape)
+            vv = broadcast_to(val.frozen(), v.shape)
             v.write_where(lambda q: True, lambda q: vv.get(q))
         elif isinstance(val, (list, tuple)):
             vv = from_list(I, list(val))
@@ -371,12 +386,16 @@ def setitem(I, a, idx, val):
 
 def broadcast_to(a, shape):
     if len(a.shape) == len(shape):
+        ones_ = [(not is_sym(s_)) and s_ == 1 and not ((not is_sym(t_)) and t_ == 1) for s_, t_ in zip(a.shape, shape)]
+        if any(ones_):
+            a = a.frozen()
         ones = [(not is_sym(s)) and s == 1 and not ((not is_sym(t)) and t == 1) for s, t in zip(a.shape, shape)]
         if not any(ones):
             return a
         return SArr(shape, lambda q: a.get(tuple(0 if o else x for o, x in zip(ones, q))), a.kind, tag='bcast')
     if len(a.shape) < len(shape):
         d = len(shape) - len(a.shape)
+        a = a.frozen()
         return broadcast_to(SArr((1,) * d + a.shape, lambda q: a.get(q[d:]), a.kind, tag='bcast'), shape)
     raise Unsupported('broadcast to lower rank')
 
@@ -388,7 +407,26 @@ def from_list(I, items, kind=None):
         k = kind or _kind_of(rows[0][0])
         return SArr((len(rows), m), lambda q: _select2(rows, q), k, tag='array(list)')
     if items and all(isinstance(x, SArr) for x in items):
-        raise Unsupported('array of arrays')
+        # equal-shape arrays stacked along a new leading axis (numpy.array([a, b]))
+        first = items[0]
+        if any(x.ndim != first.ndim for x in items):
+            raise Unsupported('array of arrays of different rank')
+        if I is not None:
+            for x in items[1:]:
+                for s0, s1 in zip(first.shape, x.shape):
+                    if is_sym(s0) or is_sym(s1):
+                        if I.ctx.branch(sym.ne(s0, s1)):
+                            raise Unsupported('array of arrays of different shape (ragged)')
+                    elif s0 != s1:
+                        raise Unsupported('array of arrays of different shape (ragged)')
+        snaps = [(x.buf.get, x.imap) for x in items]
+        kinds = [x.kind for x in items]
+        k = kind or ('O' if 'O' in kinds else ('f' if 'f' in kinds else ('i' if 'i' in kinds else 'b')))
+        conv = (lambda v: v)
+        if 'f' in kinds and k == 'f':
+            conv = sym.to_real
+        vals = [(lambda g, m: (lambda rest: g(m(tuple(rest)))))(g, m) for g, m in snaps]
+        return SArr((len(items),) + tuple(first.shape), lambda q: conv(_select([v(q[1:]) for v in vals], q[0])), k, tag='array(list of arrays)')
     k = kind or (_kind_of(items[0]) if items else 'f')
     if any(sym.is_realkind(x) for x in items if not hasattr(x, 'sec')):
         k = 'f' if k in ('i', 'f') else k
@@ -452,8 +490,8 @@ def result_shape(a, b):
 
 def elementwise(I, f, a, b, kind=None):
     shape = result_shape(a, b)
-    aa = broadcast_to(a, shape) if isinstance(a, SArr) else None
-    bb = broadcast_to(b, shape) if isinstance(b, SArr) else None
+    aa = broadcast_to(a.frozen(), shape) if isinstance(a, SArr) else None
+    bb = broadcast_to(b.frozen(), shape) if isinstance(b, SArr) else None
     ga = (lambda q: aa.get(q)) if aa is not None else (lambda q: a)
     gb = (lambda q: bb.get(q)) if bb is not None else (lambda q: b)
     k = kind
@@ -531,6 +569,7 @@ def compare(I, op, a, b):
 def unaryop(I, op, v):
     if not isinstance(v, SArr):
         return None
+    v = v.frozen()
     if isinstance(op, ast.USub):
         return SArr(v.shape, lambda q: sym.neg(v.get(q)), v.kind, tag='neg')
     if isinstance(op, ast.Invert) and v.kind == 'b':
@@ -579,6 +618,7 @@ def reduce_bool(I, a, how):
 
 def astype(I, a, t):
     t = dtype_kind(t)
+    a = a.frozen()
     if t == a.kind:
         return SArr(a.shape, lambda q: a.get(q), a.kind, tag='astype', mask=a.mask)
     if t == 'i':
@@ -625,6 +665,7 @@ def diff1(I, a):
     I.ctx.trust('numpy.diff: out[i] = a[i+1] - a[i]')
     if a.ndim != 1:
         raise Unsupported('diff of n-d array')
+    a = a.frozen()
     n = sym.sub(a.shape[0], 1)
     n = sym.ite(sym.lt(n, 0), 0, n)
     if a.kind == 'O':
@@ -735,6 +776,10 @@ def interp(I, x, xp, fp, left=None, right=None):
 # ---------------------------------------------------------------------------
 
 def value_getattr(I, a, name):
+    if isinstance(a, DTypeTok):
+        if name in ('char', 'kind'):
+            return a.char if name == 'char' else {'f': 'f', 'i': 'i', 'b': 'b', 'O': 'O'}.get(a.kind, 'f')
+        return None
     if not isinstance(a, SArr):
         return None
     if name in a.attrs:
@@ -775,6 +820,17 @@ def value_getattr(I, a, name):
                 return v
             return r
         return meth(view)
+    if name == 'swapaxes':
+        def swapaxes(I, r, args, kw):
+            i, j = args[0] % r.ndim, args[1] % r.ndim
+
+            def sw(t):
+                t = list(t)
+                t[i], t[j] = t[j], t[i]
+                return tuple(t)
+            return SArr(sw(r.shape), kind=r.kind, buf=r.buf, imap=lambda v: r.imap(sw(v)),
+                        inv=lambda q: (lambda c, s_: (c, sw(s_)))(*r.inv(q)), attrs={}, tag='swapaxes', mask=None if r.mask is None else value_getattr(I, r.mask, 'swapaxes').fn(I, r.mask, args, kw))
+        return meth(swapaxes)
     if name == 'take':
         def take(I, r, args, kw):
             i = args[0]
@@ -852,6 +908,7 @@ def value_getattr(I, a, name):
             fv = args[0] if args else kw.get('fill_value')
             if r.mask is None:
                 return r
+            r = r.frozen()
             m = r.mask
             return SArr(r.shape, lambda q: sym.ite(m.get(q), fv, r.get(q)), r.kind, tag='filled')
         return meth(filled)
@@ -1062,6 +1119,7 @@ def _diff(I, args, kw):
         raise Unsupported('diff axis')
     ax = ax % a.ndim
     I.ctx.trust('numpy.diff: out[..i..] = a[..i+1..] - a[..i..] along the axis')
+    a = a.frozen()
     n = sym.sub(a.shape[ax], 1)
     n = sym.ite(sym.lt(n, 0), 0, n)
     shp = tuple(n if k == ax else s for k, s in enumerate(a.shape))
@@ -1185,6 +1243,7 @@ def _ufunc1(name, f, kind=None):
     def fn(I, args, kw):
         x = args[0]
         if isinstance(x, SArr):
+            x = x.frozen()
             r = SArr(x.shape, lambda q: f(x.get(q)), kind or x.kind, tag=name, mask=x.mask)
             return r
         return f(x)
@@ -1207,6 +1266,7 @@ def _log(I, args, kw):
     """uninterpreted ln; for a concrete argument its sign is a known fact; contracts supply what else they need"""
     x = args[0]
     if isinstance(x, SArr):
+        x = x.frozen()
         return SArr(x.shape, lambda q: _LN(sym.to_z3(sym.to_real(x.get(q)))), 'f', tag='log', mask=x.mask)
     r = _LN(sym.to_z3(sym.to_real(x)))
     if not is_sym(x):
@@ -1224,6 +1284,7 @@ def _round(I, args, kw):
         raise Unsupported('round decimals')
     I.ctx.trust('numpy.round: nearest integer, ties to even')
     if isinstance(x, SArr):
+        x = x.frozen()
         return SArr(x.shape, lambda q: sym.round_half_even(x.get(q)), 'f', tag='round', mask=x.mask)
     return sym.round_half_even(x)
 
@@ -1246,6 +1307,7 @@ def _masked_invalid(I, args, kw):
     I.ctx.trust(A_NONAN)
     a = args[0]
     if isinstance(a, SArr):
+        a = a.frozen()
         r = SArr(a.shape, lambda q: a.get(q), a.kind, tag='masked_invalid')
         r.mask = a.mask if a.mask is not None else SArr(a.shape, lambda q: False, 'b')
         return r
@@ -1255,9 +1317,9 @@ def _masked_invalid(I, args, kw):
 @_np('ma.masked_where')
 def _masked_where(I, args, kw):
     c, a = args[:2]
-    a = _as_arr(I, a)
+    a = _as_arr(I, a).frozen()
     r = SArr(a.shape, lambda q: a.get(q), a.kind, tag='masked_where')
-    cc = broadcast_to(c, a.shape) if isinstance(c, SArr) else SArr(a.shape, lambda q: c, 'b')
+    cc = broadcast_to(c.frozen(), a.shape) if isinstance(c, SArr) else SArr(a.shape, lambda q: c, 'b')
     r.mask = cc if a.mask is None else elementwise(I, sym.Or, cc, a.mask, 'b')
     return r
 
@@ -1362,6 +1424,8 @@ def comprehension(I, e, frame, src):
         raise Unsupported('filtered comprehension over symbolic array')
     if isinstance(src, SArr):
         n = src.shape[0]
+        if src.ndim == 1:
+            src = src.frozen()      # the elements as they are when the comprehension runs
         getsrc = (lambda i: src.get(i)) if src.ndim == 1 else (lambda i: basic_index(None, src, i))
     else:
         n = src.n
@@ -1439,9 +1503,9 @@ def _where(I, args, kw):
             shape = x.shape if shape is None else result_shape(SArr(shape, lambda q: 0), x)
     if shape is None:
         return sym.ite(c, a, b)
-    cc = broadcast_to(c, shape) if isinstance(c, SArr) else None
-    aa = broadcast_to(a, shape) if isinstance(a, SArr) else None
-    bb = broadcast_to(b, shape) if isinstance(b, SArr) else None
+    cc = broadcast_to(c.frozen(), shape) if isinstance(c, SArr) else None
+    aa = broadcast_to(a.frozen(), shape) if isinstance(a, SArr) else None
+    bb = broadcast_to(b.frozen(), shape) if isinstance(b, SArr) else None
     kinds = [x.kind if isinstance(x, SArr) else _kind_of(x) for x in (a, b)]
     kind = 'O' if 'O' in kinds else ('f' if 'f' in kinds else 'i')
     return SArr(shape, lambda q: _ite(cc.get(q) if cc is not None else c,
